@@ -711,7 +711,7 @@ func (r *run) xsend(c, g, u, n, fee int) {
 		panic(err)
 	}
 	r.exec(fmt.Sprintf("xsend %d %d %d %d %d", c, g, u, n, fee), func() string {
-		return w.CallEVM(w.Users[u].Address(), crosschaintypes.GetAddress(), big.NewInt(0), data)
+		return r.pre(u, big.NewInt(0), data)
 	}, map[[2]int]int{{u, g}: -(n + fee)}, nil, nil, r.withdrawCheck("precompile crossChain", c, g, u, n+fee, true))
 }
 
@@ -727,7 +727,7 @@ func (r *run) vsend(c, g, u, n, fee int) {
 		if w.Groups[g].Kind != bx.KindFX {
 			return "err:only the origin token travels as msg.value"
 		}
-		return w.CallEVM(w.Users[u].Address(), crosschaintypes.GetAddress(), bi(n+fee), data)
+		return r.pre(u, bi(n+fee), data)
 	}, map[[2]int]int{{u, g}: -(n + fee)}, nil, nil, func(res string) {
 		if res != "ok" && w.Groups[g].Kind == bx.KindFX && w.Groups[g].OnChain[c] && n > 0 && have.Cmp(bi(n+fee)) >= 0 && strings.Contains(res, "insufficient funds") {
 			r.out.Violate("withdrawal refused for lack of escrowed funds: precompile crossChain (msg.value) of single-chain fx token by a holder with sufficient balance")
@@ -743,7 +743,7 @@ func (r *run) xincfee(c, id, u, g, n int) {
 		panic(err)
 	}
 	r.exec(fmt.Sprintf("xincfee %d %d %d %d %d", c, id, u, g, n), func() string {
-		return w.CallEVM(w.Users[u].Address(), crosschaintypes.GetAddress(), big.NewInt(0), data)
+		return r.pre(u, big.NewInt(0), data)
 	}, map[[2]int]int{{u, g}: -n}, nil, nil, nil)
 }
 
@@ -787,7 +787,7 @@ func (r *run) cancel(c, id, u int, pre bool, tx *poolRec) {
 			panic(err)
 		}
 		r.exec(fmt.Sprintf("xcancel %d %d %d", c, id, u), func() string {
-			return w.CallEVM(w.Users[u].Address(), crosschaintypes.GetAddress(), big.NewInt(0), data)
+			return r.pre(u, big.NewInt(0), data)
 		}, exp, nil, nil, check)
 		return
 	}
@@ -931,7 +931,7 @@ func (r *run) bcout(c, u, ref int, ts []tok, pre bool) {
 			panic(err)
 		}
 		r.exec(line, func() string {
-			return w.CallEVM(w.Users[u].Address(), crosschaintypes.GetAddress(), big.NewInt(0), data)
+			return r.pre(u, big.NewInt(0), data)
 		}, exp, nil, nil, check)
 		return
 	}
@@ -968,7 +968,7 @@ func (r *run) vbcout(c, u, ref, v int, ts []tok) {
 		if v == 0 {
 			return "err:no value" // without msg.value this is the plain precompile bridge call (op bcout)
 		}
-		return w.CallEVM(w.Users[u].Address(), crosschaintypes.GetAddress(), bi(v), data)
+		return r.pre(u, bi(v), data)
 	}, exp, nil, nil, nil)
 }
 
